@@ -218,8 +218,10 @@ class SimDevice(object):
                 chunks = self.cfg.get("default_chunks")
             if chunks is None:
                 chunks = [b"out:" + arg] if arg else []
+        if self.cfg.get("keepalive"):
+            chunks = [b""] * int(self.cfg["keepalive"])      # a service that only ever sends empty writes (keep-alives)
         st.outq = [bytes(c) for c in (chunks or [])]
-        st.close_after = True
+        st.close_after = not self.cfg.get("never_close")
         self.pump(st)
 
     def pump(self, st):
